@@ -28,7 +28,7 @@ PHASE_TAGS = ("HP", "PQ", "PS")
 BASES = "ACGT"
 
 
-def vcf_text(case):
+def default_header(case):
     out = ["##fileformat=VCFv4.2", '##FILTER=<ID=PASS,Description="All filters passed">',
            '##FILTER=<ID=q10,Description="Quality below 10">']
     for n, ln in case["contigs"].items():
@@ -36,6 +36,28 @@ def vcf_text(case):
     if case.get("phasing_header"):
         out.append("##phasing=partial")
     out += list(FORMAT_DEFS.values()) + INFO_DEFS
+    return out
+
+
+def header_model_lines(text):
+    """the `##` lines of a VCF text as pysam's header.records shows them to unphase_header: key, ID of a structured line"""
+    out = []
+    for line in text.split("\n"):
+        if not line.startswith("##"):
+            continue
+        key, _, value = line[2:].partition("=")
+        hid = None
+        if value.startswith("<"):
+            for part in value[1:].split(","):
+                if part.startswith("ID="):
+                    hid = part[3:].rstrip(">")
+                    break
+        out.append({"key": key, "id": hid, "text": line})
+    return out
+
+
+def vcf_text(case):
+    out = list(case["header_lines"]) if case.get("header_lines") else default_header(case)
     cols = ["#CHROM", "POS", "ID", "REF", "ALT", "QUAL", "FILTER", "INFO"]
     if case["samples"]:
         cols += ["FORMAT"] + case["samples"]
@@ -209,5 +231,38 @@ def gen_case(rng, scale=1, exotic=True, max_records=14):
                     vals = vals[:rng.randrange(1, len(vals))]      # trailing fields dropped (legal VCF)
                 calls.append(vals)
             records.append({"fixed": fixed, "format": fmt, "calls": calls})
-    return {"contigs": contigs, "samples": samples, "phasing_header": rng.random() < 0.3, "records": records,
+    case = {"contigs": contigs, "samples": samples, "phasing_header": rng.random() < 0.3, "records": records,
             "exotic": exotic}
+    if exotic and rng.random() < 0.6:
+        case["header_lines"] = gen_header(rng, case)
+    case["input"] = rng.choice(["path", "path", "stdin", "gz"]) if exotic else "path"
+    return case
+
+
+def gen_header(rng, case):
+    """header variants `unphase_header` has to cope with: 0-3 `##phasing` lines anywhere, a `##PHASING` line, INFO fields
+    named like the phase tags, definitions of unused phase tags left out, other generic lines"""
+    used = {k for r in case["records"] for k in (r["format"] or [])}
+    lines = ["##fileformat=VCFv4.2", '##FILTER=<ID=PASS,Description="All filters passed">',
+             '##FILTER=<ID=q10,Description="Quality below 10">']
+    for n, ln in case["contigs"].items():
+        lines.append(f"##contig=<ID={n},length={ln}>")
+    body = []
+    for k, d in FORMAT_DEFS.items():
+        if k in used or k not in PHASE_TAGS or rng.random() < 0.5:
+            body.append(d)
+    body += INFO_DEFS
+    if rng.random() < 0.3:
+        body.append('##INFO=<ID=PS,Number=1,Type=Integer,Description="an INFO field that happens to be called PS">')
+    if rng.random() < 0.2:
+        body.append('##INFO=<ID=HP,Number=1,Type=String,Description="an INFO field that happens to be called HP">')
+    if rng.random() < 0.4:
+        body.append("##source=generator")
+    if rng.random() < 0.3:
+        body.append("##reference=file:///ref.fa")
+    if rng.random() < 0.2:
+        body.append("##PHASING=upper-case-key")
+    rng.shuffle(body)
+    for i in range(rng.choice([0, 1, 1, 2, 2, 3])):
+        body.insert(rng.randrange(len(body) + 1), "##phasing=" + rng.choice(["partial", "none", "whatshap", "partial"]) + ("" if rng.random() < 0.5 else str(i)))
+    return lines + body
